@@ -210,6 +210,17 @@ def work(arg):
     return total, dict(counts), viols
 
 
+def _samples():
+    h = ref_hash(b"correct horse", b"S" * 16)
+    out = []
+    for i, (label, s) in enumerate(corruptions(h)):
+        if i in (31, 120, 400, 900):
+            cls, bad = judge_corrupt(b"correct horse", h, label, s)
+            out.append({"hash": h, "corruption": label, "string": s, "outcome": cls})
+    out.append({"p": "b'a\\x00'", "q": "b'a'", "verify(q, hash(p))": Auth.verify_password(b"a", Auth.hash_password(b"a\x00"))})
+    return out
+
+
 def run(tier, seed):
     rep = core.Report()
     plist = passwords(tier)
@@ -243,8 +254,7 @@ def run(tier, seed):
                 "hash strings (reference encoder) and a thinned set on one real hash. non-trivial = evaluations whose outcome was not an immediate ValueError/TypeError" % (
                     len(plist), 2 if tier == "quick" else 3, len(extra_pairs())),
         "outcomes": dict(summary), "exhaustive": True,
-        "samples": [{"p": "b'a\\x00'", "q": "b'a'", "expect": False}, {"corruption": "truncate at 31", "expect": "ValueError/TypeError or False"},
-                    {"corruption": "param-length 24->23", "expect": "False"}],
+        "samples": _samples(),
     }
     rep.assumptions = ["'malformed' = does not denote the original (method, version, parameters, salt, digest) under base64 decoding; a damaged string that still denotes exactly those may verify",
                        "scrypt itself is trusted; collisions of sha256/scrypt are out of scope"]
